@@ -2,7 +2,7 @@
 # usage: tools/runall.sh [tier] [seeds...]   runs every registered check; prints one line per run
 TIER=${1:-quick}; shift
 SEEDS=${@:-0}
-cd /verif
+cd "$(dirname "$(readlink -f "$0")")/.."
 for s in $SEEDS; do
   for i in 01 02 03 04 05 06 07 08 09 10 11 12 13 14 15 16 17 18 19 20; do
     out=$(VERIF_SEED=$s /venv/bin/python -m g3dverif.run C$i --tier $TIER ${NOEV:+--no-evidence} 2>&1)
